@@ -782,6 +782,11 @@ def runEval (std : Stdlib) (c : Json) : R (Json × Option Json × Option String)
               | .null => false                                    -- no expectation for this read
               | _ =>
                 if (optField w "anyerr").isSome then (optField g "err").isNone
+                else if (optField w "errpath").isSome then
+                  -- an error that names exactly this setting
+                  (match optField g "err" with
+                   | some e => strFieldD e "path" "" != strFieldD w "errpath" ""
+                   | none => true)
                 else if (optField w "okany").isSome then (optField g "ok").isNone
                 else if (optField w "notcyclic").isSome then
                   (match optField g "err" with
